@@ -454,6 +454,64 @@ def _accumulated_sum(ps, name, attr, children_loop_node):
     return 'ok'
 
 
+def _helper_total(ctx, ps, call, attr):
+    """`h(task[, '<attr>'])` with h = `total = 0; for c in <p>.children: total = total + c.<attr> | getattr(c, <field>); return total`
+    (a helper the normaliser does not fold: loop + return).  'ok' | ('bad', msg) | None (not that shape)"""
+    prog = ctx.prog
+    h = Expander(prog, ps.f, ctx.typer, inline=False)._single_target(call)
+    if h is None or isinstance(h.node, ast.Lambda) or not call.args or not (isinstance(call.args[0], ast.Name) and call.args[0].id == ps.task):
+        return None
+    params = [p_ for p_ in h.params if p_ != h.self_name] if h.kind in ('method', 'getter', 'setter') else list(h.params)
+    if not params or len(call.args) > len(params) or call.keywords:
+        return None
+    field_of = {}
+    for p_, a_ in zip(params[1:], call.args[1:]):
+        if isinstance(a_, ast.Constant) and isinstance(a_.value, str):
+            field_of[p_] = a_.value
+    body = [s_ for s_ in h.node.body if not (isinstance(s_, ast.Expr) and isinstance(s_.value, ast.Constant))]
+    if len(body) != 3 or not isinstance(body[0], ast.Assign) or not isinstance(body[1], ast.For) or not isinstance(body[2], ast.Return):
+        return None
+    acc = body[0].targets[0].id if len(body[0].targets) == 1 and isinstance(body[0].targets[0], ast.Name) else None
+    if acc is None or facts.const_num(body[0].value) != 0 or not (isinstance(body[2].value, ast.Name) and body[2].value.id == acc):
+        return None
+    lp = body[1]
+    if not isinstance(lp.target, ast.Name) or lp.orelse:
+        return None
+    it = sched.whole_seq(lp.iter)
+    if not (isinstance(it, ast.Attribute) and isinstance(it.value, ast.Name) and it.value.id == params[0]):
+        return None
+    if it.attr != 'children':
+        return ('bad', f"{h.name} adds up `{src(lp.iter)}` instead of the children")
+    if len(lp.body) != 1:
+        return ('bad', f"{h.name} does not add every child unconditionally") if any(isinstance(x, (ast.If, ast.Continue, ast.Break)) for st_ in lp.body
+                                                                                   for x in ast.walk(st_)) else None
+    st_ = lp.body[0]
+    term = None
+    if isinstance(st_, ast.AugAssign) and isinstance(st_.op, ast.Add) and isinstance(st_.target, ast.Name) and st_.target.id == acc:
+        term = st_.value
+    elif isinstance(st_, ast.Assign) and len(st_.targets) == 1 and isinstance(st_.targets[0], ast.Name) and st_.targets[0].id == acc and \
+            isinstance(st_.value, ast.BinOp) and isinstance(st_.value.op, ast.Add):
+        l_, r_ = st_.value.left, st_.value.right
+        term = r_ if isinstance(l_, ast.Name) and l_.id == acc else (l_ if isinstance(r_, ast.Name) and r_.id == acc else None)
+    elif isinstance(st_, ast.If):
+        return ('bad', f"{h.name} adds a child only when `{src(st_.test)[:50]}`")
+    if term is None:
+        return None
+    got = None
+    m = match(f"{lp.target.id}.$a", term)
+    if m and isinstance(m['a'], str):
+        got = m['a']
+    else:
+        m = match(f"getattr({lp.target.id}, $f)", term)
+        if m and isinstance(m['f'], ast.Name) and m['f'].id in field_of:
+            got = field_of[m['f'].id]
+        elif m and isinstance(m['f'], ast.Constant):
+            got = m['f'].value
+    if got is None:
+        return None
+    return 'ok' if got == attr else ('bad', f"{h.name} adds up the children's `{got}`, not their {attr}")
+
+
 def rollup(ctx, o, ps: PassShape, attrs=None):
     S = ps.S
     want = {'start': 'min', 'end': 'max', 'estimate': 'sum', 'spent': 'sum'}
@@ -485,7 +543,8 @@ def rollup(ctx, o, ps: PassShape, attrs=None):
     for attr, op in want.items():
         sts = [x for x in ps.stores(attr) if x[3]['milestone'] is False and x[3]['leaf'] is False]
         if not sts:
-            vague = [x for x in ps.stores(attr) if x[3]['leaf'] is None and x[3]['milestone'] is not True]
+            vague = [x for x in ps.stores(attr) if x[3]['milestone'] is not True and x[3]['leaf'] is not True and
+                     (x[3]['leaf'] is None or x[3]['milestone'] is None)]
             if vague:
                 o.undecided(ps.f, vague[0][0], vague[0][0], f"task.{attr} is stored under conditions the rule cannot classify as leaf / summary")
                 continue
@@ -530,6 +589,12 @@ def rollup(ctx, o, ps: PassShape, attrs=None):
                         wname = vx.func.id if isinstance(vx.func, ast.Name) else vx.func.attr
                         o.refute(ps.f, st, st, f"summary {attr} is `{src(vx)[:80]}`: the {op} over the children is passed through {wname}(), so the "
                                                f"summary no longer carries exactly the {op} of its children's {attr}")
+                    elif op == 'sum' and isinstance(vx, ast.Call) and _helper_total(ctx, ps, vx, attr) is not None:
+                        r = _helper_total(ctx, ps, vx, attr)
+                        if r == 'ok':
+                            o.site(ps.f, st, f"summary {attr} = helper that adds child.{attr} over all children")
+                        else:
+                            o.refute(ps.f, st, st, f"summary {attr}: {r[1]}")
                     elif isinstance(vx, ast.Name) or (isinstance(vx, ast.Call) and not (isinstance(vx.func, ast.Name) and
                                                                                          vx.func.id in ('min', 'max', 'sum', 'len', 'datetime'))):
                         o.undecided(ps.f, st, st, f"summary {attr} is `{src(vx)[:60]}`, which could not be resolved to {op}(children {attr}s)")
@@ -741,7 +806,8 @@ def backward_leaf_start(ctx, o, ps: PassShape):
     fill = ctx.prog.func(ps.S['fill'])
     sts = [x for x in ps.stores('start') if x[3]['milestone'] is False and x[3]['leaf'] is True]
     if not sts:
-        vague = [x for x in ps.stores('start') if x[3]['leaf'] is None and x[3]['milestone'] is not True]
+        vague = [x for x in ps.stores('start') if x[3]['milestone'] is not True and x[3]['leaf'] is not False and
+                 (x[3]['leaf'] is None or x[3]['milestone'] is None)]
         if vague:
             o.undecided(ps.f, vague[0][0], vague[0][0], "task.start is stored under conditions the rule cannot classify as leaf / summary")
         else:
